@@ -81,11 +81,27 @@ Theorem C12_catch_all_levels :
 Proof. exact catch_all_levels. Qed.
 Print Assumptions C12_catch_all_levels.
 
-(* member order: within the covered domain acceptance is a function of the canonical form, which
-   does not depend on the order of members at any level (C11_order_independent,
-   C11_compositional) *)
-Theorem C12_reformat_accepted_partial : forall s b j1 j2,
+(* member order: the members of any object of a covered document, at any depth (inside carried-along
+   unknown members too), may be permuted - names distinct - without changing acceptance ... *)
+Theorem C12_reformat_accepted : forall s b j1 j2,
+  well_covered s j1 = true -> reorder j1 j2 -> accepts s b j1 = accepts s b j2.
+Proof. exact reformat_accepted. Qed.
+Print Assumptions C12_reformat_accepted.
+
+(* ... because the re-ordered document is covered again and has the same canonical form *)
+Theorem C12_reorder_stays_covered : forall s j1 j2,
+  reorder j1 j2 -> well_covered s j1 = true -> well_covered s j2 = true.
+Proof. exact reorder_covered. Qed.
+Print Assumptions C12_reorder_stays_covered.
+
+Theorem C12_reorder_same_canonical_form : forall v1 v2,
+  reorder v1 v2 -> canon_spec (fun s => s) v1 = canon_spec (fun s => s) v2.
+Proof. exact reorder_cs. Qed.
+Print Assumptions C12_reorder_same_canonical_form.
+
+(* more generally, within the covered domain acceptance is a function of the canonical form *)
+Theorem C12_acceptance_depends_on_canonical_form : forall s b j1 j2,
   well_covered s j1 = true -> well_covered s j2 = true -> canon j1 = canon j2 ->
   accepts s b j1 = accepts s b j2.
 Proof. exact reformat_accepted_covered. Qed.
-Print Assumptions C12_reformat_accepted_partial.
+Print Assumptions C12_acceptance_depends_on_canonical_form.
